@@ -14,9 +14,13 @@ type GCase struct {
 	In      string   `json:"in"`
 	MemoAll bool     `json:"memoAll"`          // also memoize the non-recursive rules
 	PreLen  int      `json:"preLen,omitempty"` // > 0: the parsed file follows a file of that length (used by C02)
+	Toks    *C10Case `json:"toks,omitempty"`   // C07 only: a literal token sequence instead of a grammar
 }
 
 func (c *GCase) Describe() string {
+	if c.Toks != nil {
+		return "literal tokens: " + c.Toks.Describe()
+	}
 	in := c.In
 	if len(in) > 80 {
 		in = fmt.Sprintf("%s...(%d bytes)", in[:60], len(in))
